@@ -1,6 +1,6 @@
 """C11 — the log rejects corruption instead of reinterpreting it."""
 from ..prims import *
-from ..guards import check_strength
+from ..guards import check_strength, check_zip_lengths
 from ..guards import find_guard, side_tokens
 from ..baselines import baseline
 
@@ -108,12 +108,14 @@ def run(ctx):
     rep.check({1, 2} <= ps, "C11.R1", "covers:disk_record_digest:kind+payload", "disk record digest covers kind and payload", "disk_record_digest covers params %s" % sorted(ps), site=drd.loc())
 
     # ---- R2
+    _zip_done = set()
     for (path, enum, variant, ta, tb) in GUARDS:
         f = prog.fn(path)
         st, detail = find_guard(prog, f, enum, variant, ta, tb)
         rep.check(st == "ok", "C11.R2", "guard:%s:%s:%s~%s" % (f.name, variant, "+".join(sorted(ta)), "+".join(sorted(tb))), detail, "%s — %s" % (st, detail), site=f.loc())
         if st == "ok":
             check_strength(rep, "C11.R2", "guard:%s:%s:%s~%s" % (f.name, variant, "+".join(sorted(ta)), "+".join(sorted(tb))), "C11", prog, f, enum, variant, ta, tb)
+        check_zip_lengths(rep, "C11.R2", prog, f, _zip_done)
     ents = {"fs-recovery": [prog.fn(CW + "recover_filesystem_store"), prog.fn(CW + "recover_wal_segment_bytes")],
             "scan": [prog.fn(CW + "recover_from_frames_and_commits")]}
     trees = {}
